@@ -64,3 +64,6 @@ def run(ctx):
 
     _c10b.compat(ctx)  # the singular part (and the FMM near field built on it) converts the spaces first and reads the converted ones only
     _c10b.compat_use(ctx)
+    from . import c11 as _c11g
+
+    _c11g.geometry(ctx)  # (tools/wiring.py) normals, Jacobians, integration elements against their definitions for a general triangle of any size
